@@ -290,8 +290,35 @@ theorem reply_matched_by_full_id (s : Async.State) (id st h : Nat)
     s.slots.getD (id % 2 ^ 32) none = some h ∧ s.ids.getD h 0 = id ∧
     (s.tcp.getReq h).state = .waitResponse ∧ id % 2 ^ 32 < s.size ∧
     ((handleResp s id st).tcp.getReq h).state =
-      (if convertStatus st ≠ 0 then .error (convertStatus st) else .received) :=
+      (if s.conv st ≠ 0 then .error (s.conv st) else .received) :=
   handleResp_matched s id st h hne
+
+/-- **Success needs status zero, for the signing and for the extending service.** A request goes to RESPONSE_RECEIVED through a
+reply only if that reply carries status 0 and the request's own identifier. -/
+theorem completes_only_with_status_zero (s : Async.State) (id st h : Nat)
+    (hne : ((handleResp s id st).tcp.getReq h).state ≠ (s.tcp.getReq h).state)
+    (hrec : ((handleResp s id st).tcp.getReq h).state = .received) :
+    st = 0 ∧ s.ids.getD h 0 = id ∧ (s.tcp.getReq h).state = .waitResponse := by
+  obtain ⟨_, hid, hw, _, hst⟩ := handleResp_matched s id st h hne
+  refine ⟨?_, hid, hw⟩
+  by_cases hc : s.conv st ≠ 0
+  · rw [if_pos hc] at hst
+    rw [hst] at hrec
+    cases hrec
+  · exact (conv_eq_zero_iff s st).mp (by simpa using hc)
+
+/-- a non-zero status fails exactly the request it was sent for, with the service's own meaning of the code -/
+theorem error_status_fails_its_own_request (s : Async.State) (id st h : Nat) (hst0 : st ≠ 0)
+    (hne : ((handleResp s id st).tcp.getReq h).state ≠ (s.tcp.getReq h).state) :
+    s.ids.getD h 0 = id ∧ ((handleResp s id st).tcp.getReq h).state = .error (s.conv st) ∧ 0x400 ≤ s.conv st := by
+  obtain ⟨_, hid, _, _, hst⟩ := handleResp_matched s id st h hne
+  have hc : s.conv st ≠ 0 := fun h0 => hst0 ((conv_eq_zero_iff s st).mp h0)
+  rw [if_pos hc] at hst
+  refine ⟨hid, hst, ?_⟩
+  unfold State.conv
+  split
+  · exact convertStatusExt_ge st hst0
+  · exact convertStatus_ge st hst0
 
 /-- a reply for an unknown id, a stale id generation, or a request that is not waiting changes nothing -/
 theorem foreign_reply_ignored (s : Async.State) (id st : Nat)
